@@ -1,5 +1,6 @@
 import BleveModel.Proto
 import BleveModel.Drv.C07
+import BleveModel.Drv.C06
 
 open Bleve.Proto
 
@@ -7,6 +8,7 @@ open Bleve.Proto
 def statelessStep (which : String) : Option (List String → String) :=
   match which with
   | "c07" => some Bleve.Drv.C07.step
+  | "c06" => some Bleve.Drv.C06.step
   | _ => none
 
 partial def loop (h : IO.FS.Stream) (out : IO.FS.Stream) (f : List String → String) : IO Unit := do
